@@ -11,7 +11,9 @@ import types
 import numpy as np
 import torch
 
-DEFAULT = {"pot": "harm", "k": 8.0, "r0": 1.2, "D": 1.5, "a": 1.6, "gamma": 0.3}
+# soft defaults: with dt <= 0.5 fs the fastest pair frequency stays far below the Verlet stability limit
+# even for far-from-equilibrium starts (the quartic "harm" form stiffens with stretch)
+DEFAULT = {"pot": "harm", "k": 1.5, "r0": 1.6, "D": 1.0, "a": 1.0, "gamma": 0.3}
 
 
 def pair_energy(r, p):
